@@ -337,7 +337,7 @@ def dump_py(spec, net, objs, T, relabel=None):
 	return trace
 
 
-def run_py(spec, mode='batch', relabel=None, split=None, consistency='W', reindex_after=None, net_objs=None):
+def run_py(spec, mode='batch', relabel=None, split=None, consistency='W', reindex_after=None, net_objs=None, overrides=None):
 	"""Runs the real simulator. Returns dict(trace, total, newfg, oseq, sseq) or dict(error=...)."""
 	from stockpyl import sim
 	install_hooks()
@@ -358,8 +358,12 @@ def run_py(spec, mode='batch', relabel=None, split=None, consistency='W', reinde
 				total = sim.simulation(net, T, rand_seed=spec.get('seed', 1), progress_bar=False, consistency_checks=consistency)
 			else:
 				sim.initialize(net, T, rand_seed=spec.get('seed', 1))
-				for _ in range(T):
-					sim.step(net, consistency_checks=consistency)
+				for t_ in range(T):
+					ov = overrides[t_] if overrides else None          # {label: quantity}: the order of that node is SET to the quantity in this period
+					if ov:
+						sim.step(net, order_quantity_override={(relabel[l] if relabel else l): {None: {None: float(q)}} for l, q in ov.items()}, consistency_checks=consistency)
+					else:
+						sim.step(net, consistency_checks=consistency)
 				total = sim.close(net)
 			newfg = _rec['newfg']; oseq = _rec['oseq']; sseq = _rec['sseq']
 			_rec['newfg'] = None; _rec['oseq'] = None; _rec['sseq'] = None
@@ -563,9 +567,10 @@ def oracle_C02(spec, tr, init):
 	return bad
 
 
-def oracle_C03(spec, tr, init, exo_dis=None):
-	"""on-order exactness and lead-time exactness."""
+def oracle_C03(spec, tr, init, exo_dis=None, tol=None):
+	"""on-order exactness and lead-time exactness. tol: compare within this absolute tolerance (streams outside the exact regime)."""
 	bad = []
+	ne = (lambda x, y: x != y) if not tol else (lambda x, y: abs(x - y) > tol)
 	pos, edges, inE, outE = layout(spec)
 	labels = spec['labels']
 	T = len(tr)
@@ -577,13 +582,13 @@ def oracle_C03(spec, tr, init, exo_dis=None):
 			want = sum(ed['ispl'], F(0))
 			if a is not None:
 				want += sum(ed['iopl'], F(0)) + ed['bo'] + ed['odi']
-			if ed['oo'] != want:
+			if ne(ed['oo'], want):
 				bad.append('t=%d edge%d%s: on-order %s != ordered-not-yet-received %s' % (t, e, (a, b), ed['oo'], want))
 			nd = spec['nodes'][str(labels[b])]
 			rp_now = bool(nd['dis'] and nd['dis']['type'] == 'RP' and st['nodes'][b]['disrupted'])
-			if not rp_now and ed['idi'] != 0:
+			if not rp_now and ne(ed['idi'], 0):
 				bad.append('t=%d edge%d%s: %s units still held at the door although no receipt-pausing disruption is active' % (t, e, (a, b), ed['idi']))
-			if rp_now and ed['is'] != 0:
+			if rp_now and ne(ed['is'], 0):
 				bad.append('t=%d edge%d%s: received %s during a receipt-pausing disruption' % (t, e, (a, b), ed['is']))
 	# order lead time: IO at t+olt equals OQ at t
 	for e, (a, b) in enumerate(edges):
@@ -591,7 +596,7 @@ def oracle_C03(spec, tr, init, exo_dis=None):
 			continue
 		olt = spec['nodes'][str(labels[b])]['olt']
 		for t in range(T - olt):
-			if tr[t + olt]['edges'][e]['io'] != tr[t]['edges'][e]['oq']:
+			if ne(tr[t + olt]['edges'][e]['io'], tr[t]['edges'][e]['oq']):
 				bad.append('edge%d%s: order of period %d (%s) not received by the supplier in period %d (got %s)' % (
 					e, (a, b), t, tr[t]['edges'][e]['oq'], t + olt, tr[t + olt]['edges'][e]['io']))
 				break
@@ -613,10 +618,11 @@ def oracle_C03(spec, tr, init, exo_dis=None):
 			got = tr[t + lag]['edges'][e]['is']
 			if t < lag:
 				continue   # initial pipeline contents arrive in the first periods
-			if sent != got:
+			if ne(sent, got):
 				bad.append('edge%d%s: shipment of period %d (%s) but receipt in period %d is %s' % (e, (a, b), t, sent, t + lag, got))
 				break
-	bad += oracle_disruptions(spec, tr)
+	if not tol:
+		bad += oracle_disruptions(spec, tr)
 	return bad
 
 
